@@ -76,11 +76,13 @@ fn m_record(variant: u8, x: &Enr) -> Option<Enr> {
 // 0x03: Way        active-request idx << 8 | src (0 the request's destination, 1 addr_M, 2 destination IP with another port, 3 IPv4-mapped form of the destination)
 // 0x04: Replay     log idx << 8 | src (0 original, 1 addr_M, 2 IPv4-mapped form of the original)
 // 0x05: Answer     shape 0..7 (M answers V's oldest request to M)
+// 0x07: ZeroKey    a TALK request claiming X from X's address, encrypted under the all-zero key
 // 0x06: Late       0: more than a challenge lifetime passes; 1: 0.6 of a lifetime passes (free, at most twice)
 fn code(kind: u32, arg: u32) -> u32 {
     (kind << 24) | arg
 }
 
+#[derive(Clone)]
 pub struct Attack {
     pub handshake_records: Vec<u8>,
     pub handshake_sigs: Vec<u8>,
@@ -149,6 +151,15 @@ impl Driver for Attack {
                     for s in &self.handshake_sigs {
                         out.push((Ev::Ext(code(2, (ci as u32) << 16 | cl << 12 | (*r as u32) << 8 | *s as u32)), 1));
                     }
+                }
+            }
+        }
+        // a message claiming X from X's address under a degenerate (all-zero) key, while V holds a
+        // session with X
+        if self.msgs {
+            if let Some(s) = w.snap(V) {
+                if s.sessions.iter().any(|x| x.addr.node_id == w.nodes[X].id) {
+                    out.push((Ev::Ext(code(7, 0)), 1));
                 }
             }
         }
@@ -285,6 +296,13 @@ impl Driver for Attack {
                     w.log_mark = w.log.len();
                     w.deliver_raw(V, src, &d.bytes, d.kind, d.nonce, d.origin).await;
                 }
+                7 => {
+                    let msg = v::Request { id: v::RequestId(vec![0xDE, 0xAD]), body: v::RequestBody::Talk { protocol: b"forged".to_vec(), request: vec![7] } }.encode();
+                    let mut s = v::VSession::from_keys([0u8; 16], [0u8; 16]);
+                    if let Ok(p) = s.encrypt_message(x_id, &msg) {
+                        Attack::send(w, x_addr, p).await;
+                    }
+                }
                 6 if arg == 1 => {
                     w.scratch.push(("half".into(), vec![]));
                     w.advance_through(crate::hsim::REQUEST_TIMEOUT * 6 / 10).await;
@@ -365,11 +383,13 @@ impl Driver for Attack {
         // address. The session keys are bound to the contact's static key by ECDH, so creating
         // that session is legitimate; whether anything is later *attributed* to the contact is
         // checked against the true origin of the datagram below.
+        let mut way_answered_now: Vec<([u8; 32], SocketAddr)> = vec![];
         if let Some(p) = &pre[V] {
             for (to, kind, src, _, nonce) in w.delivered_now.clone() {
                 if to == V && kind == 1 {
                     for a in p.active_requests.iter().filter(|a| a.addr.socket_addr == src && a.nonce == nonce) {
                         w.initiated.insert((a.addr.node_id.raw(), a.addr.socket_addr));
+                        way_answered_now.push((a.addr.node_id.raw(), a.addr.socket_addr));
                     }
                 }
             }
@@ -404,7 +424,10 @@ impl Driver for Attack {
                 // Initiator role: `Established(.., Outgoing)` is issued by protocol design when V sends
                 // its own handshake towards the key it dialled (before key confirmation); requests
                 // and responses are attributed only if the datagram really came from the key holder.
-                let outgoing_report = matches!(&raw, HandlerOut::Established(_, _, v::ConnectionDirection::Outgoing));
+                // (a WHOAREYOU for a request that did not initiate the session is answered the same
+                // way but labelled Incoming: accepted in the very step that answered that WHOAREYOU)
+                let outgoing_report = matches!(&raw, HandlerOut::Established(_, _, v::ConnectionDirection::Outgoing))
+                    || (matches!(&raw, HandlerOut::Established(..)) && way_answered_now.contains(&(id.raw(), addr)));
                 let by_initiation = w.initiated.contains(&(id.raw(), addr)) && (origins.contains(&holder_origin) || outgoing_report);
                 if !w.proved.contains(&(id.raw(), addr)) && !by_initiation {
                     w.violate("C01", "requests, responses and session reports are attributed to X only after X proved its identity", &format!("attributed-without-proof:{what}"), format!("V reported {what} for {} at {addr} after {:?}", w.name_of(&id), ev));
@@ -446,6 +469,8 @@ pub fn configs(thorough: bool) -> Vec<(String, HCfg)> {
         ("v-dials-x".to_string(), base(vec![Req { from: 0, to: 1, body: Body::Ping, with_enr: true }], 1)),
         ("v-dials-m-noenr".to_string(), base(vec![Req { from: 0, to: 9, body: Body::Find(1), with_enr: false }], 1)),
         ("v-dials-x-noenr".to_string(), base(vec![Req { from: 0, to: 1, body: Body::Ping, with_enr: false }], 1)),
+        // X loses its state between two requests of V: V re-keys its session in place (previous keys retained)
+        ("v-rekeys-x".to_string(), HCfg { allow_restart: vec![1], ..base(vec![Req { from: 0, to: 1, body: Body::Ping, with_enr: true }, Req { from: 0, to: 1, body: Body::Talk, with_enr: true }], 1) }),
     ];
     if thorough {
         out.push(("x-dials-v".to_string(), base(vec![Req { from: 1, to: 0, body: Body::Ping, with_enr: true }], 1)));
@@ -517,11 +542,18 @@ pub fn explore(prop: &str, thorough: bool, budget_s: f64, k_max: u32) -> (mc::St
             let mut vio = vec![];
             let mut smp = vec![];
             let m = monitors.clone();
+            // the re-key world is about what V accepts under retained / degenerate keys: attacker
+            // messages and replays only; it is part of the identity / authenticity checks
+            if name == "v-rekeys-x" && !thorough && prop != "C01" && prop != "C02" {
+                continue;
+            }
+            let d_world = if name == "v-rekeys-x" { Attack { handshake_records: vec![], handshake_sigs: vec![], ways: false, halves: false, ..d.clone() } } else { d.clone() };
+            let d = &d_world;
             // only the clauses read for this property (C02 reads C01's attribution clause)
             let mut cfg = cfg.clone();
             cfg.focus = if prop == "C02" { vec!["C02".to_string(), "C01".to_string()] } else { vec![prop.to_string()] };
             let cfg = &cfg;
-            let stats = mc::explore(&limits, |h: &[Ev]| rt::run(run_history_with(cfg, m.clone(), h, true, &d)), |v, _| vio.push(v), |h, o| {
+            let stats = mc::explore(&limits, |h: &[Ev]| rt::run(run_history_with(cfg, m.clone(), h, true, d)), |v, _| vio.push(v), |h, o| {
                 let _ = o;
                 smp.push(format!("{:?}", h));
             });
@@ -558,6 +590,7 @@ pub fn explore(prop: &str, thorough: bool, budget_s: f64, k_max: u32) -> (mc::St
                 }
                 if v.key.starts_with(&format!("{prop}:")) || v.key.starts_with("panic:") {
                     v.replay["workload"] = json!(name);
+                v.replay["engine"] = json!("hsim");
                     v.replay["driver"] = json!("attack");
                     found.push(v);
                 }
